@@ -35,7 +35,11 @@ CFG = {
         "thread Signal wakes and the receiver a send is handed to are free choices of the model (label parameters), so "
         "the theorems do not depend on FIFO wake order. AddReqAnyway/AddAnyway (sleep-and-retry loops around Add), "
         "WaitClose/WaitClear/TryClear (stop/clear channels) and SyncQueue.Len as an operation are outside the model "
-        "(Len and IsClosed are read only as observations at quiescent points). For PriQueue the schedules also keep a "
+        "(Len and IsClosed are read only as observations at quiescent points). Items are abstract identities (Z) in the "
+        "model: the unchanged pipe queues hand a nil / typed-nil / zero-valued item out like any other (Pop returns "
+        "(nil, nil) for a nil item), which the harness checks by mapping these values to reserved ids; SyncQueue.Pop "
+        "cannot tell a nil item from `closed`, so the nil interface is outside its contract and not generated there; "
+        "PriQueue takes IEntry values, not interface{}, and is driven with non-nil entries only. For PriQueue the schedules also keep a "
         "Push / Pop parked at the entry of its critical section (mutex held through the hook priq.VerifHold) and read "
         "len(WaitCh()) at that moment (trace element PEMid: the model's token, nothing of the parked call has happened); "
         "the monitor does not speak about that moment (a call is in progress). A consumer thread makes one pop call "
@@ -45,7 +49,11 @@ CFG = {
         "one case = one forced schedule (3-20 batches of calls; a batch = up to 2 concurrent lanes of non-blocking calls "
         "plus newly launched consumers) on a fresh queue of one of the six types, run on the real implementation and "
         "replayed in Coq; generator classes per type: random walk, park-close, park-add, drain-after-close, bound, "
-        "close-race, steal, tryclose, add-close-burst (k>=2 parked, an add and Close back to back from one goroutine) "
+        "close-race, steal, tryclose, add-close-burst (k>=2 parked, an add and Close back to back from one goroutine), "
+        "park-add-nil (k parked, k items some of which are boundary values); in every class about one item in eight is "
+        "a boundary value of interface{} - the nil interface, a typed nil pointer, \"\", int(0), false, struct{}{} - "
+        "each used at most once per schedule and identified by a reserved negative id (the nil interface is not used "
+        "on SyncQueue, whose Pop returns nil for `closed`) "
         "(condition-variable queues) and random, resignal, park-push, collapse, full, push-parked (PriQueue; a call "
         "held at the entry of its critical section through the hook); plus one protocol-following stress case per type "
         "and consumer count (CStress: consumers run the documented protocol - receive from WaitCh(), Pop until nil with "
